@@ -1060,10 +1060,14 @@ func RunSeq(seed uint64, sc *SeqCase, gen *OpGen, nops int, stopAtFirst bool) *S
 		}
 		if len(m.viol) == 0 {
 			// final: maintenance, then structural audit and derived views (C04/C05 in sequential form)
+			// (C05 in sequential form: every alive table node is linked in exactly one queue and, with
+			// expiry, in the timer wheel; nothing removed is still tracked; the counters agree)
 			a := otter.VerifAuditCache(r.C, w.Now)
 			for _, p := range a.Problems {
 				out.Audit = append(out.Audit, p)
+				m.fail(P("C05"), ruleOf(p), -1, "structural audit at the end of the sequential run: %s", p)
 			}
+			m.Probes["final-structural-audit"]++
 		}
 		if len(r.bgExecPanics) > 0 {
 			for _, p := range r.bgExecPanics {
